@@ -168,6 +168,51 @@ theorem history_eq_build (ang : A → P) (dflt : A) (order : List W) (pre post :
       have hne : (g' :: gs').getLast? = some ((g' :: gs').getLast (List.cons_ne_nil _ _)) := List.getLast?_eq_some_getLast _
       simp [List.getLast?_cons_cons, hne]
 
+
+/-! ## histories of `set_var_params` and `update_var_params` on the ansatz object -/
+section object
+variable {V C : Type}
+
+/-- **every history of sets and updates**: if the in-place write turns the circuit of any parameter vector into the
+    circuit of the new one (for the block layout this is `history_eq_build`), then after any sequence of
+    `set_var_params` / `update_var_params` calls the circuit is the freshly built circuit of the LAST UPDATE's vector,
+    whatever was recorded by `set_var_params` in between. -/
+theorem run_circ_eq_build (build : V → C) (write : C → V → C) (hw : ∀ θ' θ, write (build θ') θ = build θ)
+    (cs : List (Call V)) (θ0 v0 : V) :
+    (Obj.run write ⟨v0, build θ0⟩ cs).circ = build (lastUpdate θ0 cs) := by
+  induction cs generalizing θ0 v0 with
+  | nil => rfl
+  | cons c cs ih =>
+    cases c with
+    | set θ => exact ih θ0 θ
+    | update θ =>
+      show (Obj.run write ⟨θ, write (build θ0) θ⟩ cs).circ = _
+      rw [hw]; exact ih θ θ
+
+/-- in particular: directly after `update_var_params θ` the circuit is `build θ` and the recorded vector is `θ` -/
+theorem run_update_last (build : V → C) (write : C → V → C) (hw : ∀ θ' θ, write (build θ') θ = build θ)
+    (cs : List (Call V)) (θ0 v0 θ : V) :
+    (Obj.run write ⟨v0, build θ0⟩ (cs ++ [.update θ])).circ = build θ ∧
+    (Obj.run write ⟨v0, build θ0⟩ (cs ++ [.update θ])).var = θ := by
+  constructor
+  · rw [run_circ_eq_build build write hw]
+    have : ∀ (cs : List (Call V)) (a : V), lastUpdate a (cs ++ [.update θ]) = θ := by
+      intro cs; induction cs with
+      | nil => intro a; rfl
+      | cons c cs ih => intro a; cases c <;> exact ih _
+    rw [this]
+  · simp [Obj.run, List.foldl_append, Obj.step]
+
+/-- the shortcut "skip the update when the vector equals the recorded one" is NOT sound: `set_var_params 1` followed
+    by `update_var_params 1` leaves the circuit of the old vector in place -/
+theorem skip_shortcut_counterexample :
+    (([Call.set 1, Call.update 1].foldl (Obj.stepSkip (fun _ θ => θ)) (⟨0, 0⟩ : Obj Nat Nat)).circ = 0) ∧
+    ((Obj.run (fun _ θ => θ) (⟨0, 0⟩ : Obj Nat Nat) [Call.set 1, Call.update 1]).circ = 1) := by decide
+
+example : (Obj.run (fun _ θ => θ) (⟨0, 0⟩ : Obj Nat Nat) [.update 3, .set 5, .update 4, .set 9]).circ = 4 := by decide
+
+end object
+
 /-! ## non-vacuity -/
 example : updateBlock (fun (c : Int) => 2 * c) ["XY", "YX", "ZZ"] 1 [7, 2, 4, 6, 9] [("ZZ", 5), ("XY", -1), ("YX", 0)] = [7, -2, 0, 10, 9] := by decide
 example : buildBlock (fun (c : Int) => 2 * c) ["XY", "YX", "ZZ"] (coefOf 0 [("ZZ", 5), ("XY", -1), ("YX", 0)]) = [-2, 0, 10] := by decide
